@@ -73,6 +73,19 @@ func logIndexDigest(rs types.Receipts) string {
 	return short(crypto.Keccak256Hash([]byte(sb.String())))
 }
 
+// hasPenalty reports whether the receipts carry a slashing log (double-sign evidence or inactivity penalty).
+func hasPenalty(rs types.Receipts) bool {
+	t := common.StringToHash(stk.LogTopicSlashing)
+	for _, r := range rs {
+		for _, l := range r.Logs {
+			if len(l.Topics) > 0 && l.Topics[0] == t {
+				return true
+			}
+		}
+	}
+	return false
+}
+
 func builtFields(blk *types.Block, rs types.Receipts) map[string]interface{} {
 	h := blk.Header()
 	return map[string]interface{}{
@@ -160,6 +173,7 @@ func errClass(msg string) string {
 func run(env *drive.Env) error {
 	sd.Install(sd.CfgFromEnv(env))
 	K := env.OptInt("k", 3)
+	KP := env.OptInt("kp", 8)
 	per := sd.Params().StakingTrieFrequency
 	rnd := rand.New(rand.NewSource(env.Seed))
 	var beh []sd.ABlock
@@ -215,8 +229,13 @@ func run(env *drive.Env) error {
 						ev := builtFields(blk, rs)
 						ev["ev"], ev["blk"], ev["pe"], ev["nev"], ev["nev0"], ev["kinds"] = "Built", num, (num+1)%per == 0, nev, nev0, ks
 						ev["dberr"] = dberr
+						ev["pen"] = hasPenalty(rs)
 						env.Emit(ev)
-						for k := 0; k < K; k++ {
+						kk := K
+						if hasPenalty(rs) && KP > kk {
+							kk = KP // penalty logs list the parties they took from: more repetitions against map-order dependence
+						}
+						for k := 0; k < kk; k++ {
 							r := rerun(w, w.A, blk, k, rnd)
 							r["ev"], r["blk"], r["k"], r["on"], r["errc"] = "Rerun", num, k, "A", errClass(fmt.Sprint(r["err"]))
 							env.Emit(r)
